@@ -54,7 +54,12 @@ def run_case(ctx, doc, codes, vcs, scs, workers, r, d):
     prefix = os.path.join(d, "fs")
     raw, ids, pos, alleles = write_fileset(ctx, prefix, codes, r, doc.get("layout", "variant-major"))
     out = os.path.join(d, "o.vcz")
-    shutil.rmtree(out, ignore_errors=True)
+    # half of the conversions go to a path that already holds the store of the previous (different) fileset
+    if r.random() < 0.5:
+        shutil.rmtree(out, ignore_errors=True)
+        doc = dict(doc, output_path="fresh")
+    else:
+        doc = dict(doc, output_path="existing store" if os.path.exists(out) else "fresh")
     try:
         plink.convert(prefix + ".bed", out, variants_chunk_size=vcs, samples_chunk_size=scs, worker_processes=workers)
     except Exception as e:  # noqa: BLE001
